@@ -20,6 +20,7 @@ CONSTANTS
   EmitAllUpTo = 0
   Sel = 160
   CondSel = 12
+  AltMode = 0
   KeepGoing = TRUE
 INVARIANT Inv
 CHECK_DEADLOCK FALSE
